@@ -72,7 +72,8 @@ theorem pending_partial_never_eof (B fuel : Nat) (s : St) (partialLine : Bytes) 
 /-- the code facts the model's offset accounting rests on, as the extractor reads them from `/repo` now -/
 theorem code_facts :
     Generated.C17.posAdvancesByLineLength = true ∧ Generated.C17.setOffsetOnlyAfterConfirm = true ∧
-    Generated.C17.finalPersistAfterLoop = true ∧ 16 ≤ Generated.C17.recordMaxSizeMin ∧
+    Generated.C17.finalPersistAfterLoop = true ∧ Generated.C17.eventGetsOwnRecordSlice = true ∧
+    16 ≤ Generated.C17.recordMaxSizeMin ∧
     Generated.C17.recordMaxSizeMin ≤ Generated.C17.recordMaxSizeDefault ∧
     Generated.C17.recordMaxSizeDefault ≤ Generated.C17.recordMaxSizeMax := by decide
 
